@@ -989,6 +989,40 @@ pub fn run_t1(profile: &T1Profile, tape: Tape, opts: &T1Opts) -> RunOut {
                         if e.events.is_empty() && s.conn_send_window as i64 != e.conn_send_win && !sh.conn_done[side] && !s.has_conn_error {
                             cap_violations.push(Violation::new("C02", "connection-send-window-disagrees-with-wire", who, format!("{}: internal connection send window {} but the wire accountant says {}", who, s.conn_send_window, e.conn_send_win), exec.step));
                         }
+                        // ... and so do the windows it believes to have advertised (C03) and
+                        // each stream's send window (C02): books == wire
+                        if e.events.is_empty() && !sh.conn_done[side] && !s.has_conn_error {
+                            let adv = 65_535 + e.conn_wu_out - e.conn_data_in;
+                            if s.conn_recv_window as i64 != adv {
+                                cap_violations.push(Violation::new("C03", "connection-window-books-disagree-with-wire", who, format!("{} believes it has advertised a connection window of {} but the wire says 65535 + WINDOW_UPDATE {} - DATA {} = {}", who, s.conn_recv_window, e.conn_wu_out, e.conn_data_in, adv), exec.step));
+                            }
+                            for x in &s.streams {
+                                let w = match e.streams.get(&x.id) {
+                                    Some(w) => w,
+                                    None => continue,
+                                };
+                                if w.rst_out > 0 || w.rst_in || x.state == 6 {
+                                    continue;
+                                }
+                                // once the application has dropped its receive handle h2 stops
+                                // charging the stream window (only the connection's): nothing
+                                // reads that window any more
+                                let reader_gone = hist.with(|h| h.streams.get(&x.id).map(|r| r.dirs[1 - side].r_stopped).unwrap_or(false));
+                                if matches!(x.state, 2 | 3 | 4) && !w.end_in && !reader_gone {
+                                    let adv_s = e.own_acked.iws as i64 + w.wu_out - w.data_in;
+                                    if x.recv_window as i64 != adv_s {
+                                        cap_violations.push(Violation::new("C03", "stream-window-books-disagree-with-wire", if w.reserved { "pushed" } else { "" }, format!("{}: stream {} (state {}): believes the peer may still send {} but what it advertised is acknowledged INITIAL_WINDOW_SIZE {} + WINDOW_UPDATE {} - DATA {} = {}", who, x.id, x.state, x.recv_window, e.own_acked.iws, w.wu_out, w.data_in, adv_s), exec.step));
+                                        break;
+                                    }
+                                }
+                                if matches!(x.state, 1 | 3 | 5) && !w.end_out && w.hdr_out {
+                                    if x.send_window as i64 != w.send_win {
+                                        cap_violations.push(Violation::new("C02", "stream-send-window-disagrees-with-wire", if w.reserved { "pushed" } else { "" }, format!("{}: stream {} (state {}): internal send window {} but the peer granted {} (wire accountant)", who, x.id, x.state, x.send_window, w.send_win), exec.step));
+                                        break;
+                                    }
+                                }
+                            }
+                        }
                     }
                     fnv(&mut h, &[s.num_send_streams as u8, s.num_recv_streams as u8, (s.conn_send_window > 0) as u8, (s.conn_recv_window > 0) as u8, s.has_conn_error as u8]);
                     for st in &s.streams {
